@@ -155,9 +155,12 @@ if (comm_t) *comm_t -= RAPtor_MPI_Wtime();
     b_inner = b.inner_product(z);
 if (comm_t) *comm_t += RAPtor_MPI_Wtime();
     norm_b = sqrt(b_inner);
-    if (norm_b > zero_tol)
+    // residuals are reported relative to (b, M^{-1} b); a zero right-hand side has no relative residual
+    double res_scale = 1.0;
+    if (norm_b > 0.0)
     {
         tol = tol * norm_b;
+        res_scale = b_inner;
     }
 
     // r0 = b - A * x0
@@ -178,10 +181,13 @@ if (comm_t) *comm_t -= RAPtor_MPI_Wtime();
 if (comm_t) *comm_t += RAPtor_MPI_Wtime();
     // same scaling as every later entry: (r, M^{-1} r) / (b, M^{-1} b)
     norm_rz = sqrt(rz_inner);
-    res.emplace_back(rz_inner / b_inner);
+    res.emplace_back(rz_inner / res_scale);
 
     recompute_r = 8;
     iter = 0;
+
+    // the initial guess already meets the tolerance (in particular: it is the solution)
+    if (!(rz_inner > tol)) return;
 
     // Main CG Loop
     while (iter < max_iter)
@@ -229,7 +235,7 @@ if (comm_t) *comm_t -= RAPtor_MPI_Wtime();
 if (comm_t) *comm_t += RAPtor_MPI_Wtime();
         beta = next_inner / rz_inner;
 
-        res.emplace_back(next_inner/b_inner);
+        res.emplace_back(next_inner/res_scale);
         if (next_inner < tol) break;
 
         // p_{i+1} = z_{i+1} + beta_i * p_i
